@@ -245,6 +245,58 @@ theorem insAll_perm {α} {l₁ l₂ : List (Str × α)} {m : List (Str × α)} (
   refine sorted_ext s₁.1 s₂.1 (fun p => ?_)
   rw [s₁.2 p, s₂.2 p, hp.mem_iff, (hp.map Prod.fst).mem_iff]
 
+theorem contains_iff {α} {k : Str} : ∀ {m : List (Str × α)}, contains k m = true ↔ k ∈ m.map Prod.fst
+  | [] => by simp [contains, get?]
+  | (k', v) :: rest => by
+    have ih := contains_iff (k := k) (m := rest)
+    simp only [contains, get?] at ih ⊢
+    split
+    · rename_i hk
+      have : k' = k := by simpa using hk
+      simp [this]
+    · rename_i hk
+      have : k' ≠ k := by simpa using hk
+      simp only [List.map_cons, List.mem_cons]
+      rw [ih]
+      constructor
+      · exact .inr
+      · rintro (e | e)
+        · exact absurd e.symm this
+        · exact e
+
+/-- keys after an insertion (no sortedness needed) -/
+theorem keys_insert' {α} {k k' : Str} {v : α} : ∀ {m : List (Str × α)},
+    k' ∈ (insert' k v m).map Prod.fst ↔ k' = k ∨ k' ∈ m.map Prod.fst
+  | [] => by simp [insert'_nil]
+  | (k0, v0) :: rest => by
+    rw [insert'_cons]
+    split
+    · rename_i hk
+      have : k0 = k := by simpa using hk
+      subst this
+      simp only [List.map_cons, List.mem_cons]
+      constructor
+      · rintro (e | e)
+        · exact .inl e
+        · exact .inr (.inr e)
+      · rintro (e | e | e)
+        · exact .inl e
+        · exact .inl e
+        · exact .inr e
+    · split
+      · simp only [List.map_cons, List.mem_cons]
+      · have ih := keys_insert' (k := k) (k' := k') (v := v) (m := rest)
+        simp only [List.map_cons, List.mem_cons, ih]
+        constructor
+        · rintro (e | e | e)
+          · exact .inr (.inl e)
+          · exact .inl e
+          · exact .inr (.inr e)
+        · rintro (e | e | e)
+          · exact .inr (.inl e)
+          · exact .inl e
+          · exact .inr (.inr e)
+
 end AMap
 
 namespace Decode
@@ -274,34 +326,60 @@ theorem entry_key {fuel : Nat} {top : Str} {p : Str × J} {k : Str} {pv : PV}
       · simp at hk
     · simp at h
 
-/-- when every entry decodes, the `localeKeys` loop is a fold of `insert'` over the entries -/
+theorem entry_some {fuel : Nat} {top : Str} {k : Str} {x : J} {key' : Str} {pv : PV} :
+    entry fuel top (k, x) = some (key', pv) ↔
+      Key.new k = some key' ∧ value fuel top false key' x = .ok pv := by
+  unfold entry
+  simp only
+  constructor
+  · intro h
+    split at h
+    · simp at h
+    · rename_i k' hk
+      split at h
+      · rename_i pv' hv
+        simp only [Option.some.injEq, Prod.mk.injEq] at h
+        rw [← h.1, ← h.2]; exact ⟨hk, hv⟩
+      · simp at h
+  · rintro ⟨hk, hv⟩
+    simp only [hk, hv]
+
+/-- when every entry decodes and the trimmed keys are pairwise distinct and not yet in the
+accumulator, the `localeKeys` loop is a fold of `insert'` over the entries -/
 theorem localeKeys_ok (fuel : Nat) (top : Str) : ∀ (l : List (Str × J)) (acc : List (Str × PV)),
     (∀ p, p ∈ l → (entry fuel top p).isSome) →
+    ((l.filterMap (entry fuel top)).map Prod.fst).Nodup →
+    (∀ k, k ∈ (l.filterMap (entry fuel top)).map Prod.fst → k ∉ acc.map Prod.fst) →
     value.localeKeys fuel top l acc = .ok (AMap.insAll acc (l.filterMap (entry fuel top)))
-  | [], acc, _ => by simp [value.localeKeys, AMap.insAll]
-  | (k, x) :: rest, acc, h => by
+  | [], acc, _, _, _ => by simp [value.localeKeys, AMap.insAll]
+  | (k, x) :: rest, acc, h, hn, hd => by
     have h1 := h (k, x) (by simp)
-    have ih := fun acc => localeKeys_ok fuel top rest acc (fun p hp => h p (by simp [hp]))
-    simp only [value.localeKeys]
-    unfold entry at h1
-    simp only at h1
-    split
-    · rename_i hk; rw [hk] at h1; simp at h1
-    · rename_i key' hk
-      rw [hk] at h1
-      simp only at h1
-      split
-      · rename_i e he; rw [he] at h1; simp at h1
-      · rename_i e he; rw [he] at h1; simp at h1
-      · rename_i pv hv
-        rw [ih]
-        have : entry fuel top (k, x) = some (key', pv) := by
-          unfold entry; simp only [hk, hv]
-        simp only [List.filterMap_cons, this, AMap.insAll, List.foldl_cons]
+    cases he : entry fuel top (k, x) with
+    | none => rw [he] at h1; simp at h1
+    | some kv =>
+      obtain ⟨key', pv⟩ := kv
+      have ⟨hk, hv⟩ := entry_some.mp he
+      simp only [List.filterMap_cons, he, List.map_cons, List.nodup_cons] at hn hd
+      have hc : AMap.contains key' acc = false := by
+        cases hc : AMap.contains key' acc with
+        | false => rfl
+        | true => exact absurd (AMap.contains_iff.mp hc) (hd key' (by simp))
+      have ih := localeKeys_ok fuel top rest (AMap.insert' key' pv acc)
+        (fun p hp => h p (by simp [hp])) hn.2
+        (fun k' hk' hm => by
+          rcases AMap.keys_insert'.mp hm with e | e
+          · subst e; exact hn.1 hk'
+          · exact hd k' (by simp [hk']) e)
+      simp only [value.localeKeys, hk, hv, hc, Bool.false_eq_true, if_false, ih,
+        List.filterMap_cons, he, AMap.insAll, List.foldl_cons]
 
-/-- conversely, a successful loop means every entry decoded -/
+/-- conversely, a successful loop means every entry decoded, the trimmed keys are pairwise
+distinct and none of them was in the accumulator -/
 theorem localeKeys_ok_inv (fuel : Nat) (top : Str) : ∀ (l : List (Str × J)) (acc r : List (Str × PV)),
-    value.localeKeys fuel top l acc = .ok r → ∀ p, p ∈ l → (entry fuel top p).isSome
+    value.localeKeys fuel top l acc = .ok r →
+    (∀ p, p ∈ l → (entry fuel top p).isSome) ∧
+    ((l.filterMap (entry fuel top)).map Prod.fst).Nodup ∧
+    (∀ k, k ∈ (l.filterMap (entry fuel top)).map Prod.fst → k ∉ acc.map Prod.fst)
   | [], _, _, _ => by simp
   | (k, x) :: rest, acc, r, h => by
     simp only [value.localeKeys] at h
@@ -312,11 +390,25 @@ theorem localeKeys_ok_inv (fuel : Nat) (top : Str) : ∀ (l : List (Str × J)) (
       · simp at h
       · simp at h
       · rename_i pv hv
-        intro p hp
-        simp only [List.mem_cons] at hp
-        rcases hp with rfl | hp
-        · unfold entry; simp only [hk, hv]; rfl
-        · exact localeKeys_ok_inv fuel top rest _ r h p hp
+        split at h
+        · simp at h
+        · rename_i hc
+          have he : entry fuel top (k, x) = some (key', pv) := entry_some.mpr ⟨hk, hv⟩
+          have ⟨ih1, ih2, ih3⟩ := localeKeys_ok_inv fuel top rest _ r h
+          have hc' : key' ∉ acc.map Prod.fst := fun hm => hc (AMap.contains_iff.mpr hm)
+          refine ⟨?_, ?_, ?_⟩
+          · intro p hp
+            simp only [List.mem_cons] at hp
+            rcases hp with rfl | hp
+            · rw [he]; rfl
+            · exact ih1 p hp
+          · simp only [List.filterMap_cons, he, List.map_cons, List.nodup_cons]
+            exact ⟨fun hm => ih3 key' hm (AMap.keys_insert'.mpr (.inl rfl)), ih2⟩
+          · intro k' hk'
+            simp only [List.filterMap_cons, he, List.map_cons, List.mem_cons] at hk'
+            rcases hk' with e | e
+            · subst e; exact hc'
+            · exact fun hm => ih3 k' e (AMap.keys_insert'.mpr (.inr hm))
 
 theorem entries_keys (fuel : Nat) (top : Str) : ∀ (l : List (Str × J)),
     (∀ p, p ∈ l → (entry fuel top p).isSome) →
